@@ -187,6 +187,16 @@ func (g *gen) buildFollow(tier string) {
 		// no appendStore on this path
 		add(&followIn{opHash: 1, answers: []int{ansReal, ansReal}, upTo: 5}, [][]*peerSpec{{w.only(5), w.honest()}}, "follow-stack-gap", "gap")
 		add(&followIn{opHash: 1, answers: []int{ansReal, ansReal}, upTo: 5}, [][]*peerSpec{{w.liar("skip", 1, eClose), w.honest()}}, "follow-stack-gap", "skip")
+		// every lie, first and second packet, before an honest peer (no failed attempt: no sleep)
+		for li, k := range lieKinds {
+			for pos := 0; pos < 2; pos++ {
+				if tier != "thorough" && (li+pos)%2 == 1 {
+					continue
+				}
+				add(&followIn{opHash: 1, answers: []int{ansReal, ansReal}, upTo: 5},
+					[][]*peerSpec{{w.liar(k, pos, eClose), w.honest()}}, "", "lies")
+			}
+		}
 		for i := 0; i < 4*scale; i++ {
 			k := g.rng.Intn(2)
 			var atts [][]*peerSpec
